@@ -44,7 +44,8 @@ fn ack_ref(c: &mut Cur) -> AckRef {
 }
 
 fn refs(c: &mut Cur) -> Vec<AckRef> {
-    let n = 1 + (c.z() % 3) as usize;
+    // 0..=3 references (an empty id list is a legal request)
+    let n = (c.z() % 4) as usize;
     (0..n).map(|_| ack_ref(c)).collect()
 }
 
@@ -116,7 +117,7 @@ pub fn decode(data: &[u8]) -> Case {
         };
         let a = c.z();
         let asy = a & 0x80 != 0;
-        let op = match code % 26 {
+        let op = match code % 29 {
             0 => Op::CreateTopic { t: t_of(a), a: asy },
             1 => Op::DeleteTopic { t: t_of(a), a: asy },
             2 => Op::CreateSub { s: s_of(a), t: t_of(a >> 2), dl: DLS[(a as usize >> 3) % DLS.len()], push: 0, a: asy },
@@ -162,7 +163,10 @@ pub fn decode(data: &[u8]) -> Case {
                     Op::GetTopic { t: t_of(a), a: asy }
                 }
             }
-            _ => Op::Walk { kind: a % 3, p: 0, t: t_of(a >> 2), size: SIZES[(a as usize >> 3) % SIZES.len()] },
+            25 => Op::Walk { kind: a % 3, p: 0, t: t_of(a >> 2), size: SIZES[(a as usize >> 3) % SIZES.len()] },
+            26 => Op::GoToActual { s: s_of(a), back: (a >> 2) % 3, delta_us: [500i64, 1_000, 1_500, -500][(a as usize >> 4) % 4] },
+            27 => Op::ListTok { kind: a % 3, p: 0, t: t_of(a >> 2), size: SIZES[(a as usize >> 3) % SIZES.len()], tok: Tok::Offset([0u64, 1, 2, 3, 50, u64::MAX][(a as usize >> 5) % 6]) },
+            _ => Op::Publish { t: t_of(a), n: 0, payload: Payload::plain(), a: asy },
         };
         ops.push(op);
     }
